@@ -7,6 +7,9 @@ Two private keys are not part of the YAML format and are applied to the loaded
 Scenario through its public objects (source S4):
   _discovery_values : {addr: value >= 0}      (Host.discovery_value)
   _bounds           : (subnets, hosts)        (address_space_bounds of dict scenarios)
+  (_req_access {exploit name: level} is understood by the model but NOT generated: a req_access
+   entry in an exploit definition is not part of the documented format - the unmodified
+   parameterised action space itself drops it - see DESIGN.md section 9.5)
 """
 import os
 import tempfile
